@@ -136,6 +136,23 @@ def check_node(n, gkids, gtexts, gbelow_count, root, depth_bound, T):
     return None
 
 
+def shared_object(root, T):
+    seen = set()
+    stack = [root]
+    while stack:
+        e = stack.pop()
+        if isinstance(e, str) and not isinstance(e, T['TexText']):
+            continue                      # plain strings / tokens are immutable values
+        if id(e) in seen:
+            return '%s %r occurs twice' % (type(e).__name__, str(e)[:40])
+        seen.add(id(e))
+        if isinstance(e, T['TexText']):
+            continue
+        stack.extend(getattr(e, 'args', ()))
+        stack.extend(getattr(e, '_contents', ()))
+    return None
+
+
 def check_doc(acc, src, items):
     soup, exc = egram.parse(src)
     case = egram.case_of(src, items)
@@ -146,6 +163,13 @@ def check_doc(acc, src, items):
     T = egram.types()
     ann, index, below, top = gen_index(items)
     depth_bound = gram.count_nodes(items)
+    # the expression graph is a tree: no expression object (node, argument group, text leaf) sits in two places -
+    # otherwise parent links, positions and identity-based edits of one occurrence would hit the other
+    shared = shared_object(soup.expr, T)
+    if shared is not None:
+        acc.violation('shared-object', dict(case, node=None), 'every expression object occurs once in the tree',
+                      shared, size)
+        return
     # root
     gtexts = []
     for d in ann:
@@ -194,7 +218,7 @@ def plan(tier):
 
 
 def shards(tier):
-    return layers.shards(plan(tier), ('order', 'args', 'char'))
+    return layers.shards(plan(tier), ('order', 'args', 'char', 'nest10'))
 
 
 def prepare(tier):
@@ -227,7 +251,7 @@ SIGNATURES = {}
 
 def coverage(tier, total):
     return {
-        'rule': 'every node of every L_wf document of: %s; contents vs expr.all, children, iteration, indexing, '
+        'rule': 'every node of every L_wf document of: %s, of the order, argument and character layers and of the nest layer to depth 10; the expression graph is a tree; contents vs expr.all, children, iteration, indexing, '
                 'descendants vs closure and generator node count, text vs generator leaves, root concatenation, parent '
                 'links and chains' % ', '.join('%s <= %d nodes' % p for p in layers.PLAN[plan(tier)]),
         'layers': dict(total.hist),
